@@ -121,10 +121,10 @@ def build_plant(D, T, heat, fuel, mr, md, tar, tao, ramp=False, last=None, cf=No
         pl.min_cap = 'mincap'
         if D.symbolic:
             for v in mincaps:
-                D.assume(v <= pl.max_cap)
+                D.assume(v <= lift.ctor_arg(pl, 'max_cap'))
     for prof in (sr, sdr):
         if prof is not None and D.symbolic:
-            D.assume(pl.max_cap >= max(prof[1]))      # profile bounds lie within the capacity range (documented meaning of a ramp profile)
+            D.assume(lift.ctor_arg(pl, 'max_cap') >= max(prof[1]))      # profile bounds lie within the capacity range (documented meaning of a ramp profile)
     prices = {'p': D.arr('p', T)}
     if mincaps is not None:
         prices['mincap'] = mincaps
@@ -322,12 +322,12 @@ def run_physics(rec, seed, T, heat, fuel, mr, md, tar, tao, ramp, last=None, cf=
         heatv = [xs[ix[('disp', 'H')][t]] for t in range(T)] if heat else [z3.RealVal(0)] * T
         # conversion factor per step, from the asset's parameter (harness side)
         if heat:
-            cfp = pl.conversion_factor_power_heat
+            cfp = lift.ctor_arg(pl, 'conversion_factor_power_heat')
             if isinstance(cfp, dict):
                 cfs = [zl(v) for v in cfp['values']]
             else:
                 cfs = [zl(cfp)] * T
-            share = [zl(pl.max_share_heat)] * T
+            share = [zl(lift.ctor_arg(pl, 'max_share_heat'))] * T
         else:
             cfs = [z3.RealVal(0)] * T
         virt = [power[t] + cfs[t] * heatv[t] for t in range(T)]
@@ -337,8 +337,8 @@ def run_physics(rec, seed, T, heat, fuel, mr, md, tar, tao, ramp, last=None, cf=
         start = [xs[ix[('bool_start', None)][t]] for t in range(T)] if has_start else None
         has_sd = ('bool_shutdown', None) in ix
         shut = [xs[ix[('bool_shutdown', None)][t]] for t in range(T)] if has_sd else None
-        mn_t = [zl(v) for v in prices['mincap']] if mincap_ts else [zl(pl.min_cap)] * T
-        mx = zl(pl.max_cap)
+        mn_t = [zl(v) for v in prices['mincap']] if mincap_ts else [zl((pl.min_cap if isinstance(pl.min_cap, str) else lift.ctor_arg(pl, 'min_cap')))] * T
+        mx = zl(lift.ctor_arg(pl, 'max_cap'))
         k_sr = len(sr[0]) if sr else 0
         k_sd = len(sdr[0]) if sdr else 0
         info0 = dict(kind='physics', T=T, heat=heat, fuel=fuel)
@@ -413,7 +413,7 @@ def run_physics(rec, seed, T, heat, fuel, mr, md, tar, tao, ramp, last=None, cf=
                                                              flag_index=(ix[('bool_start', None)][t - key[1]] if key[0] == 'start' else ix[('bool_shutdown', None)][T - 1]),
                                                              disp_index=ix[('disp', 'P')][t])))
         if ramp:
-            rp = zl(pl.ramp)
+            rp = zl(lift.ctor_arg(pl, 'ramp'))
             for t in range(1, T):
                 free = z3.BoolVal(True)
                 if has_start and (k_sr or k_sd):
@@ -421,14 +421,14 @@ def run_physics(rec, seed, T, heat, fuel, mr, md, tar, tao, ramp, last=None, cf=
                 d = virt[t] - virt[t - 1]
                 rec.prove(P + '/ramp/%d' % t, assume, z3.Implies(free, z3.And(d <= rp * dtv[t], -d <= rp * dtv[t])), form='Q1',
                           info=dict(info0, ob='ramp', t=t))
-            ld = zl(pl.last_dispatch) * dtv[0]
+            ld = zl(lift.ctor_arg(pl, 'last_dispatch')) * dtv[0]
             d0 = virt[0] - ld
             free0 = z3.BoolVal(True)
             if has_start and (k_sr or k_sd):
                 # step -1 was position j of the shutdown profile if the plant is shut down at step j
                 before = z3.Or(*[shut[j] == 1 for j in range(min(k_sd, T))]) if k_sd else z3.BoolVal(False)
                 free0 = z3.And(z3.Not(in_profile(0)), z3.Not(before))
-            consistent = [] if tar > 0 else [zl(pl.last_dispatch) == 0]
+            consistent = [] if tar > 0 else [zl(lift.ctor_arg(pl, 'last_dispatch')) == 0]
             rec.prove(P + '/ramp/0', assume + consistent, z3.Implies(free0, z3.And(d0 <= rp * dtv[0], -d0 <= rp * dtv[0])), form='Q1',
                       info=dict(info0, ob='ramp0'))
         # starts
@@ -457,7 +457,7 @@ def run_physics(rec, seed, T, heat, fuel, mr, md, tar, tao, ramp, last=None, cf=
         if fuel:
             disp = out['dispatch']
             col = 'pl (G)'
-            fe = zl(pl.fuel_efficiency); cio = zl(pl.consumption_if_on); sf = zl(pl.start_fuel)
+            fe = zl(lift.ctor_arg(pl, 'fuel_efficiency')); cio = zl(lift.ctor_arg(pl, 'consumption_if_on')); sf = zl(lift.ctor_arg(pl, 'start_fuel'))
             for t in range(T):
                 want = -(virt[t]) / fe
                 if has_on:
@@ -527,12 +527,12 @@ def observe(case, kwargs, env, rq):
     out = eao.io.extract_output(pf, op, eao.optimization.Results(value=float(env.get('value', 0.0)), x=x, duals=None))
     o = dict(problem=obs.problem_obs(op), output=obs.output_obs(out))
     if rq.get('kind') == 'replay':
-        cfp = pl.conversion_factor_power_heat if heat else 0.0
-        o['par'] = dict(min=([float(v) for v in prices['mincap']] if kw.get('mincap_ts') else [float(pl.min_cap)] * T), max=float(pl.max_cap), ramp=(float(pl.ramp) if pl.ramp is not None else None),
-                        last=float(pl.last_dispatch), cf=([float(v) for v in cfp['values']] if isinstance(cfp, dict) else [float(cfp)] * T),
-                        share=float(pl.max_share_heat) if heat else None, dt=[float(v) for v in tg.dt],
-                        fe=float(pl.fuel_efficiency) if fuel else None, cio=float(pl.consumption_if_on) if fuel else None,
-                        sf=float(pl.start_fuel) if fuel else None)
+        cfp = lift.ctor_arg(pl, 'conversion_factor_power_heat') if heat else 0.0
+        o['par'] = dict(min=([float(v) for v in prices['mincap']] if kw.get('mincap_ts') else [float((pl.min_cap if isinstance(pl.min_cap, str) else lift.ctor_arg(pl, 'min_cap')))] * T), max=float(lift.ctor_arg(pl, 'max_cap')), ramp=(float(lift.ctor_arg(pl, 'ramp')) if lift.ctor_arg(pl, 'ramp') is not None else None),
+                        last=float(lift.ctor_arg(pl, 'last_dispatch')), cf=([float(v) for v in cfp['values']] if isinstance(cfp, dict) else [float(cfp)] * T),
+                        share=float(lift.ctor_arg(pl, 'max_share_heat')) if heat else None, dt=[float(v) for v in tg.dt],
+                        fe=float(lift.ctor_arg(pl, 'fuel_efficiency')) if fuel else None, cio=float(lift.ctor_arg(pl, 'consumption_if_on')) if fuel else None,
+                        sf=float(lift.ctor_arg(pl, 'start_fuel')) if fuel else None)
     return o
 
 
